@@ -92,3 +92,37 @@ def names(scheme, n):
     if scheme == "reserved2":
         return ["Start", "TrashNode", "Empty", "TRASH"][:n]
     raise ValueError(scheme)
+
+
+def trim4_cases(t=5, stride=1):
+    """FA on 4 states with exactly t transitions, start state 0, final state 3, every state on a path from 0 to 3
+    (trim) -- large enough for elimination-order effects (cycles through two eliminated states, parallel edges)."""
+    tr = triples(4, 2, True)
+    k = 0
+    for sub in combinations(tr, t):
+        succ = {}
+        pred = {}
+        for p, s, q in sub:
+            succ.setdefault(p, set()).add(q)
+            pred.setdefault(q, set()).add(p)
+        fw, todo = {0}, [0]
+        while todo:
+            x = todo.pop()
+            for y in succ.get(x, ()):
+                if y not in fw:
+                    fw.add(y)
+                    todo.append(y)
+        if len(fw) < 4:
+            continue
+        bw, todo = {3}, [3]
+        while todo:
+            x = todo.pop()
+            for y in pred.get(x, ()):
+                if y not in bw:
+                    bw.add(y)
+                    todo.append(y)
+        if len(bw) < 4:
+            continue
+        k += 1
+        if k % stride == 0:
+            yield (4, 2, sub, 1, 8)
